@@ -286,6 +286,11 @@ func (p *proverCtx) lenDefs(lv lvar) {
 		}
 		// library results with a documented length
 		switch callQName(&x.Call) {
+		case "strings.Split", "strings.SplitN", "bytes.Split":
+			// splitting by a non-empty separator yields at least one piece
+			if sep, ok := constString(x.Call.Args[1]); ok && sep != "" {
+				p.addFact(linVar(lv).addConst(-1), "len(strings.Split(s, non-empty sep)) >= 1")
+			}
 		case "strings.Repeat":
 			if one := p.varFor(lvar{v: x.Call.Args[0], kind: 'l'}); one != nil {
 				if s, ok := constString(x.Call.Args[0]); ok && len(s) == 1 {
